@@ -4,6 +4,7 @@ import (
 	"fmt"
 	"html"
 	"html/template"
+	"reflect"
 	"strings"
 
 	"github.com/gobuffalo/plush/v5"
@@ -198,10 +199,10 @@ func (g *c01Gen) route(d int, expr string, v c01Val) (string, []c01Seg) {
 	}
 }
 
-const c01NSources = 16
+const c01NSources = 17
 
 var c01SourceNames = []string{"ctx-var", "dq-literal", "bq-literal", "struct-field", "ptr-struct-field", "nested-struct-field", "map-element", "map-iface-element",
-	"strings-element", "ifaces-element", "helper-string", "helper-iface", "raw()", "html-var", "htmler-var", "helper-html"}
+	"strings-element", "ifaces-element", "helper-string", "helper-iface", "raw()", "html-var", "htmler-var", "helper-html", "reflect-value-of-string"}
 
 // source sets up the context for payload p and returns the initial expression.
 func c01Source(k int, p string, ctx *plush.Context) (expr string, v c01Val, ok bool) {
@@ -255,9 +256,13 @@ func c01Source(k int, p string, ctx *plush.Context) (expr string, v c01Val, ok b
 	case 14:
 		ctx.Set("hr", htmlerFix{p})
 		return "hr", c01Val{s: p, trusted: true}, true
-	default:
+	case 15:
 		ctx.Set("hh", func() template.HTML { return template.HTML(p) })
 		return "hh()", c01Val{s: p, trusted: true}, true
+	default:
+		// the sink unwraps anything with an Interface() method
+		ctx.Set("rvs", reflect.ValueOf(p))
+		return "rvs", c01Val{s: p}, true
 	}
 }
 
@@ -420,6 +425,13 @@ func c01Run(b *core.B) {
 		expr, v, ok := c01Source(srcK, p, ctx)
 		if !ok {
 			return
+		}
+		if srcK == 16 {
+			// a reflect.Value is only a string for the output sink, not for
+			// typed helpers or operators: direct emission only
+			if depth != 0 || len(force) != 1 || force[0] == 6 || force[0] == 8 {
+				return
+			}
 		}
 		src, segs := g.route(depth, expr, v)
 		full := src
